@@ -927,6 +927,8 @@ impl Compiler {
 
         // If max_items is None, we can add an infinite tail of items later
         let n_to_add = max_items.map_or(arr.prefix_items.len().max(min_items), |max| max);
+        // one node per item is created below: refuse sizes beyond the grammar limit up front
+        self.builder.check_extra_size(n_to_add)?;
 
         for i in 0..n_to_add {
             let item = if i < arr.prefix_items.len() {
